@@ -66,6 +66,18 @@ add("C15", "exploration", "runtime monitoring: online invariant monitor over Sta
 add("C19", "exploration", "runtime monitoring: NAT-rewriting simulated paths; ground-truth quoted checksums vs. Hop::last_nat_status",
     "Paths with 0..3 NAT devices, silent hops and all port directions: each responding hop's status is compared with the ground truth (quoted checksum vs. previous responder / probe as sent); non Dublin/IPv4/UDP cells must stay NotApplicable.",
     SIM_NOTE, "DESIGN.md 3 C19")
+add("C16", "exploration", "runtime monitoring: differential monitor over the real option-resolution path (clap parser + TOML config file + defaults) and the real Builder; accepted configurations are run over simulated sockets",
+    "Random (command line, config file) pairs go through the real clap parser, the real TOML loader and TrippyConfig::build_config; every resolved field is compared with an independent precedence model (command line > file > default), derived fields with their documented derivation, and every accepted configuration is handed to the real Builder and run for rounds over simulated sockets: it must run without a configuration-caused failure. The Builder alone is also driven over the configuration product.",
+    SIM_NOTE + " The option table in harness/src/props/c16.rs is transcribed from docs / trippy-config-sample.toml.", "DESIGN.md 3 C16")
+add("C17", "exploration", "runtime monitoring: the real TuiApp + render() driven on a ratatui TestBackend by random key sessions interleaved with trace updates, panic capture and a per-step watchdog",
+    "Sessions of hundreds of steps interleave every bound key (routed as run_app routes them), terminal resizes down to 1x1, trace snapshots that grow / shrink / empty / change flows, clears and multiple traces; each step draws the real UI; any panic or a draw that does not return is a violation; after every step the selection invariants are asserted.",
+    "Trusted base: the key routing mirrored in harness/src/tui.rs from frontend.rs::run_app (the event loop itself needs a terminal and is not executed); TestBackend in place of crossterm.", "DESIGN.md 3 C17")
+add("C18", "exploration", "runtime monitoring: canary tokens planted in every private data source, every rendered cell of every frame scanned",
+    "Unique canary strings are planted in the hostnames, AS records, GeoIp records and addresses of private hops (ttl <= privacy-max-ttl); the same sessions as C17 run in every view (table, details, map, chart, help, settings, flows) and every frame's cells are scanned for any fragment of a canary; hops beyond the private range must still show theirs (so the scan is known to be able to see them).",
+    "Trusted base: as C17; the canary fragment scanner.", "DESIGN.md 3 C18")
+add("C20", "exploration", "runtime monitoring: real OS threads (tracer + readers + clear) on the real RwLock<State>, stamped call/return history checked offline against the sequential model; failpoints stretch the windows",
+    "One real tracer thread, 1..12 snapshot reader threads and a clear() thread run concurrently; every snapshot is hashed over all getters of all flows and compared with the state obtained by replaying exactly the rounds it claims to hold (ids b-n+1..b) through the single-threaded update code, and its call/return stamps must admit a linearisation w.r.t. the round publications and the clears (not stale, not from the future, forgotten prefix explained by a clear, no clear entirely in between).",
+    "Trusted base: the stamp counter (SeqCst), the digest function; interleavings are those the OS scheduler and the failpoint delays produced (counts in the evidence).", "DESIGN.md 3 C20")
 
 NOT_APPLICABLE = []
 
